@@ -260,7 +260,13 @@ def grammar_directed(ctx, n):
             txt = chooser.last_ref_text
             keep = (txt.endswith(b"/") or txt.endswith(b'/"')) and ref not in (b"", b"/")
             exp = (ref + b"/" if keep else ref).decode("latin-1")
-            if got[3]["list_reference"] != exp:
+            lr = got[3]["list_reference"]
+            if keep and ref == b"inbox":
+                # a level of hierarchy is not the name INBOX: its spelling is kept ("INBOX/" + "%" is the pattern "INBOX/%")
+                ok_ref = lr.endswith("/") and lr[:-1].lower() == "inbox"
+            else:
+                ok_ref = lr == exp
+            if not ok_ref:
                 ctx.violation("LIST: list_reference is not the reference with its trailing delimiter",
                               {"input": show(s), "expected": exp, "observed": got[3]["list_reference"]})
         cases.append((a, s, canon))
